@@ -217,12 +217,24 @@ class LinearPolynomial(BaseDeferred):
         super().__init__(typ)
         self.coeffs = {}
         if coeffs is not None:
-            for key, value in (coeffs.items() if isinstance(coeffs, dict) else coeffs):
+            terms = [(key, value, ()) for key, value in (coeffs.items() if isinstance(coeffs, dict) else coeffs)]
+            i = 0
+            while i < len(terms):
+                key, value, expanded_from = terms[i]
+                i += 1
                 # A settled promise stands for the (still unknown) value it was settled
                 # with. Terms written before and after the promise was settled must
                 # be recognised as the same variable, or 'end - start' does not cancel.
                 while isinstance(key, Promise) and key.settled and isinstance(key.value, BaseDeferred) and not isinstance(key.value, LinearPolynomial):
                     key = key.value
+                if isinstance(key, Promise) and key.settled and isinstance(key.value, LinearPolynomial) and key not in expanded_from:
+                    # Settled with 'other + offset', e.g. the base of a file included in the
+                    # middle of its parent. (A promise that is settled with a polynomial over
+                    # itself is left alone: that is a cycle, and wait() reports it.)
+                    for inner_key, inner_value in key.value.coeffs.items():
+                        terms.append((inner_key, inner_value * value, expanded_from + (key,)))
+                    constant_term += key.value.constant_term * value
+                    continue
                 if key in self.coeffs:
                     self.coeffs[key] += value
                 else:
